@@ -105,11 +105,19 @@ def run(ctx):
         ctx.violation(f"reversible_heun|{t[0]}|{n.split(':')[1].split('[')[0]}" + ('' if levy == 'none' else f'|bm-levy={levy}'), f"reverse step does not reconstruct {n}",
                       replay=dict(task=list(t)))
     ctx.twin('twin: reverse step returns y0 + 1 must fail', twins == len(tasks))
+    # the forward recursion that is being inverted must be the advertised one for EVERY user SDE, including those that hand
+    # back live tensors (stored coefficients, the state itself), with and without gradients enabled: step() must not write
+    # into tensors it did not create (seeded change C15d: in-place accumulation into the old extra state under no_grad)
+    from . import c02
+    c02.aliasing_obligations(ctx, only=('reversible_heun',))
 
 
 def replay(data):
     """numeric forward/reverse round trip with the real sdeint on a smooth time-dependent SDE of the same noise type"""
     import torchsde
+    if data['replay'].get('kind') == 'aliasing':
+        from . import c02
+        return c02.replay(data)
     task = data['replay']['task']
     nt, d, m, nsteps, B = task[:5]
     levy = task[5] if len(task) > 5 else 'none'
